@@ -1,3 +1,4 @@
+import re
 """C17 — the crate builds and keeps its contract with parse_unknown_fields disabled (DESIGN §4.17)."""
 import json
 import os
@@ -177,6 +178,24 @@ def run(ctx, env):
                 kinds.append("?" + canon(m)[:80])
         ctx.ob("R17.4", HELPER, "feature-off-never-Ok", bool(kinds) and all(k == "Err" for k in kinds),
                "return value of the feature-off helper (private helpers inlined): %s" % kinds, site=site(hb.span))
+    # R17.5: where the helper's failure ends up.  In V9 an undecodable record ends its flowset (the rest is padding) and
+    # the flowset still parses; a check that turns "nothing decoded, everything padding" into an error of the data
+    # flowset would fail the packet in this build only - and lose the known-only templates that follow in the same
+    # packet, so later known-only data decodes in the default build but not here.
+    ctx.rule("R17.5", "with the feature off an undecodable V9 record only ends its flowset: the V9 data decoders (Data / OptionsData::parse_be and their closures) build no error of their own - every Err they return is a propagated sub-parser error - so what the record loop leaves as padding never fails the packet")
+    n5 = 0
+    for dec in ("variable_versions::v9::Data", "variable_versions::v9::OptionsData"):
+        for pth, bb in sorted(off.bodies.items()):
+            if not (pth == dec + "::parse_be" or pth.startswith(dec + "::parse_be::{closure")):
+                continue
+            n5 += 1
+            errs = [(b0, s0) for (b0, i0, s0) in block_aggs(bb) if s0["rv"]["adt"].endswith("result::Result") and s0["rv"]["variant"] == "Err"]
+            errs += [(b0, {"span": bb.blocks[b0]["tspan"]}) for b0, t0, c0 in bb.calls()
+                     if c0 is not None and re.search(r"^nom::combinator::(verify|map_res|map_opt|fail|not|all_consuming|eof)(::|$)", c0.npath)]
+            ctx.ob("R17.5", pth, "no-error-of-its-own", not errs,
+                   ("%s builds an Err itself at %s (a Verify / ErrorIf on what was decoded): with the feature off a flowset whose records cannot be decoded then fails the whole packet" % (pth, [site(s0["span"]) for _, s0 in errs][:2]))
+                   if errs else "only propagated errors", site=site(bb.span))
+    ctx.floor("R17.5", "v9", "V9 data decoder bodies", n5, 2)
 
 
 def run_thorough(ctx, env):
